@@ -223,7 +223,7 @@ theorem placeAliasSO_inv {s s' : State} {a l mn sl} (hI : Inv s) (h : placeAlias
   injection h with h; subst h
   refine { wfN := hI.wfN, wfA := noDup_set _ _ _ hI.wfA, wfB := hI.wfB, esc := ?_, idx := hI.idx, ali := hI.ali,
            so := hI.so, boK := hI.boK }
-  have := sum_setAliasSO s l { expireAt := s.now + s.p.soDur, minPrice := mn, sellPrice := sl, bid := none }
+  have := sum_setAliasSO s l { seller := a, expireAt := s.now + s.p.soDur, minPrice := mn, sellPrice := sl, bid := none }
   have e := hI.esc
   simp only [escrowed_def, aliasBid, hso, Option.bind, bidAmt] at this e ⊢
   omega
